@@ -129,3 +129,119 @@ Definition generate (args : list (list N)) (info : list (list N * (bool * nat)))
   | [] => (error_exit_status, [], d)
   | _ => let '(e, calls) := gen_run files info decl (map fst d) in (e, calls, d)
   end.
+
+(* ---- the whole command: options, the per-file loop, generator selection ----
+   Languages are numbers; `any_lang` stands for the language name "any".
+   --language L fixes the meta-model and the generator language for every file, --grammar G uses
+   the meta-model built from G (with --ignore-case) and the language "any"; otherwise both are
+   deduced for every file from its name.  The generator is looked up for every file by that
+   file's language (falling back to the "any" generator only when the language was deduced). *)
+Inductive lang_mode := PerFile | Explicit (l : nat) | FromGrammar.
+Definition any_lang : nat := 2.
+Record finfo := { f_lang : option nat;          (* the registered language whose pattern matches the file name *)
+                  f_valid : nat -> bool }.      (* does the file parse with the meta-model of language l (any_lang: the --grammar one) *)
+
+Definition is_per_file (m : lang_mode) : bool := match m with PerFile => true | _ => false end.
+Definition lang_for (m : lang_mode) (fi : finfo) : option nat :=
+  match m with
+  | PerFile => f_lang fi
+  | Explicit l => Some l
+  | FromGrammar => if grammar_forces_any then Some any_lang else f_lang fi
+  end.
+
+(* registry: for a language, is a generator registered for the target, and its declared parameters *)
+Definition lookup (reg : nat -> option (option (list gparam))) (l : nat) (any_permitted : bool)
+  : option (nat * option (list gparam)) :=
+  match reg l with
+  | Some g => Some (l, g)
+  | None => if any_permitted then match reg any_lang with Some g => Some (any_lang, g) | None => None end else None
+  end.
+
+(* calls: (file, language of the generator that ran, language of the meta-model that parsed the file) *)
+Fixpoint gen_files (files : list (list N)) (first : option nat) (info : list (list N * finfo)) (m : lang_mode)
+         (reg : nat -> option (option (list gparam))) (given : list (list N)) : nat * list (list N * nat * nat) :=
+  match files with
+  | [] => (0, [])
+  | f :: r =>
+      match assoc f info with
+      | None => (error_exit_status, [])
+      | Some fi =>
+          match lang_for m fi with
+          | None => (error_exit_status, [])
+          | Some l =>
+              if f_valid fi l then
+                let key := if lookup_per_file then l else match first with Some l0 => l0 | None => l end in
+                match lookup reg key (if any_permitted_iff_deduced then is_per_file m else false) with
+                | None => (error_exit_status, [])
+                | Some (gl, decl) =>
+                    match validate decl given with
+                    | Accept => let '(e, calls) := gen_files r (match first with Some _ => first | None => Some l end) info m reg given in
+                                (e, (f, gl, l) :: calls)
+                    | _ => (error_exit_status, [])
+                    end
+                end
+              else (error_exit_status, [])
+          end
+      end
+  end.
+
+(* no model file but custom arguments: the generator runs once without a model, for the language "textx"
+   (number 3) when none was given.  With --grammar the language is "any", which is not a registered
+   language, so the meta-model lookup fails. *)
+Definition textx_lang : nat := 3.
+Definition gen_nomodel (m : lang_mode) (reg : nat -> option (option (list gparam))) (given : list (list N))
+  : nat * list (list N * nat * nat) :=
+  match (match m with PerFile => Some textx_lang | Explicit l => Some l | FromGrammar => None end) with
+  | None => (error_exit_status, [])
+  | Some l =>
+      match lookup reg l (if any_permitted_iff_deduced then is_per_file m else false) with
+      | Some (gl, decl) => match validate decl given with Accept => (0, [([], gl, l)]) | _ => (error_exit_status, []) end
+      | None => (error_exit_status, [])
+      end
+  end.
+
+Definition generate_cmd (args : list (list N)) (info : list (list N * finfo)) (m : lang_mode)
+           (reg : nat -> option (option (list gparam))) :=
+  let '(files, d) := parse_loop args [] [] in
+  match files with
+  | [] => match d with
+          | [] => (error_exit_status, [], d)
+          | _ => let '(e, calls) := gen_nomodel m reg (map fst d) in (e, calls, d)
+          end
+  | _ => let '(e, calls) := gen_files files None info m reg (map fst d) in (e, calls, d)
+  end.
+
+(* textx check with the same options *)
+Definition file_loads (m : lang_mode) (info : list (list N * finfo)) (f : list N) : bool :=
+  match assoc f info with
+  | None => false
+  | Some fi => match lang_for m fi with Some l => f_valid fi l | None => false end
+  end.
+Definition check_cmd (m : lang_mode) (info : list (list N * finfo)) (files : list (list N)) : nat :=
+  check_exit (map (file_loads m info) files).
+
+(* The documented behaviour of the per-file loop, written without the translated facts. *)
+Definition doc_lang (m : lang_mode) (fi : finfo) : option nat :=
+  match m with PerFile => f_lang fi | Explicit l => Some l | FromGrammar => Some any_lang end.
+Definition doc_call (info : list (list N * finfo)) (m : lang_mode) (reg : nat -> option (option (list gparam)))
+           (given : list (list N)) (f : list N) : option (list N * nat * nat) :=
+  match assoc f info with
+  | None => None
+  | Some fi =>
+      match doc_lang m fi with
+      | None => None
+      | Some l =>
+          if f_valid fi l then
+            match lookup reg l (is_per_file m) with
+            | Some (gl, decl) => match validate decl given with Accept => Some (f, gl, l) | _ => None end
+            | None => None
+            end
+          else None
+      end
+  end.
+Fixpoint doc_calls (calls : list (option (list N * nat * nat))) : nat * list (list N * nat * nat) :=
+  match calls with
+  | [] => (0, [])
+  | Some c :: r => let '(e, cs) := doc_calls r in (e, c :: cs)
+  | None :: _ => (1, [])
+  end.
